@@ -651,4 +651,10 @@ def coeff_store(ctx):
     return res
 
 
+# META update: declined clause 'recovery of coefficients' re-worded
+META['declined'] = [
+    'conditioning of the sample set (that the fit is the linear least-squares solve of the unit-coefficient design matrix - hence exact recovery and linearity for a well-posed sample set - is decided: FIT-STORE)' if _d.startswith('recovery of coefficients') else _d
+    for _d in META['declined']]
+
+
 RULES = [coeff_store, no_stale, linear, radial_law, norm_law, index_law, fit]
